@@ -46,3 +46,6 @@ Print Assumptions C12_sign_requests.
 Print Assumptions C12_xi_injective.
 Print Assumptions C12_rnd_injective.
 Print Assumptions C12_os_wrappers.
+(* T2: lib.rs overrides no provided trait method: the OS-RNG entry points draw through the _with_rng variants *)
+Require F204.Proofs.SourcePins.
+Check F204.Proofs.SourcePins.lib_impl_methods_pinned.
